@@ -379,3 +379,18 @@ pub fn spec_show(l: &Label) -> String {
         Label::Str(a) => a.iter().filter(|c| **c != ' ').collect(),
     }
 }
+
+/// Capacity of the right graph of a merge: the capacity of the left one, or more if the ops that
+/// build it use ids at or beyond it (a right graph need not have the capacity of the left one).
+pub fn h_capacity(cap: usize, h: &[Op]) -> usize {
+    let mut m = cap;
+    for o in h {
+        let top = match o {
+            Op::Add(v) | Op::Put(v, _) | Op::Data(v) | Op::Slice(v) => *v,
+            Op::Bind(a, b, _) => (*a).max(*b),
+            _ => 0,
+        };
+        m = m.max(top + 1);
+    }
+    m
+}
